@@ -326,7 +326,11 @@ func yamlDoc(doc map[string]any, indent string, b *strings.Builder) {
 			fmt.Fprintf(b, "%s%s:\n", indent, k)
 			yamlDoc(v, indent+"  ", b)
 		case string:
-			fmt.Fprintf(b, "%s%s: %s\n", indent, k, v)
+			if v != strings.TrimSpace(v) {
+				fmt.Fprintf(b, "%s%s: %q\n", indent, k, v) // blanks at the ends are part of the value
+			} else {
+				fmt.Fprintf(b, "%s%s: %s\n", indent, k, v)
+			}
 		default:
 			fmt.Fprintf(b, "%s%s: %v\n", indent, k, v)
 		}
@@ -784,6 +788,7 @@ func (e *env) main(inClose, closeReturned *bool) {
 		h := &simrt.Handle{ID: sc.ID, Alias: sc.ID, C: ctx}
 		s := simrt.NewTagScanner(h, sc.Tag, sc.NodeType, sc.Handler)
 		s.Inventory = sc.Inventory
+		s.Narrow = sc.Narrow
 		e.scans[sc.ID] = s
 		comps = append(comps, s)
 		compIDs = append(compIDs, sc.ID)
